@@ -130,6 +130,11 @@ def reference_build(build):
                 lines = ev['lines']
                 exec(compile('\n'.join(lines[:-1]), '<ref>', 'exec'), ns)
                 val = eval(compile(lines[-1].strip(), '<ref>', 'eval'), ns)
+                if 'call_after' in ev:
+                    try:
+                        val = val(ev['call_after'])
+                    except Exception as e:      # raised in the client's own call, outside any build
+                        val = ['raised-when-called', type(e).__name__]
             else:
                 val = eval(compile(_code_text(ev), '<ref>', 'eval'), ns)
             values[ev['key']] = val
@@ -190,6 +195,15 @@ def _gen_evals(r, env, n):
             else:
                 lines = g.program(max_stmts=r.choice([0, 1, 2, 4, 6]))
             ev = {'key': key, 'kind': 'eval', 'lines': lines, 'features': sorted(g.features)}
+            if r.random() < 0.12 and len(lines[-1]) < 300:
+                # the value is a function that reads names only when it is called - which the client does after the build
+                funs = [n for n, k in g.locals.items() if k == 'fun1']
+                if funs and r.random() < 0.5:
+                    ev['lines'] = lines[:-1] + [r.choice(funs)]
+                else:
+                    ev['lines'] = lines[:-1] + [f'lambda z_: [z_, {lines[-1]}]']
+                ev['call_after'] = r.randrange(1, 5)
+                ev['features'] = sorted(set(ev['features']) | {'callable_value'})
         else:
             body = g.fstring()
             if kind == 'fstr_bare' and r.random() < 0.5:
@@ -221,7 +235,7 @@ def generate(r, tier, index):
                 env1[first['key']] = kd
                 g = ProgGen(r, env1, p_error=0.05)
                 last = base_evals[-1]
-                if last['kind'] == 'eval':
+                if last['kind'] == 'eval' and 'call_after' not in last:
                     atom = first['key']
                     last['lines'][-1] = '[' + last['lines'][-1] + ', ' + (atom if kd != 'str' else f'len({atom})') + ']'
     builds = []
@@ -233,6 +247,11 @@ def generate(r, tier, index):
                        'filename': r.choice([None, '/w/conf/main.yaml', '/w/conf/main.yaml', f'/w/conf/other{bi}.yaml']),
                        'ctx': r.choice(['own', 'own', 'default']), 'via': r.choice(['text', 'file'])})
     par = n_builds >= 2 and r.random() < 0.3
+    if not par:
+        for bi in range(1, len(builds)):
+            if builds[bi - 1]['ctx'] in ('own', 'reuse') and r.random() < 0.2:
+                builds[bi]['ctx'] = 'reuse'                       # same EvalContext object as the previous build:
+                builds[bi]['symbols'] = builds[bi - 1]['symbols']  # its symbols are the ones that count
     sc = {'builds': builds, 'par': par}
     if par:
         from .c20 import _sched_spec
@@ -284,6 +303,9 @@ def _locate(cfg, build, ev):
     return cfg['seq'][idx]
 
 
+_PREV_CTX = []
+
+
 def _do_build(build, fs, rec, unique=None):
     from awesomeyaml import Builder, Config, EvalContext, errors
     text = _doc_text(build)
@@ -301,11 +323,24 @@ def _do_build(build, fs, rec, unique=None):
         if build['ctx'] == 'default':
             EvalContext.set_default_eval_symbols(syms)
             cfg = Config(root)
+        elif build['ctx'] == 'reuse' and _PREV_CTX:
+            cfg = Config(root, eval_ctx=_PREV_CTX[0])      # the context (and its symbols) of the previous build
         else:
             EvalContext.set_default_eval_symbols({})    # process-wide defaults are configuration: this client uses none
-            cfg = Config(root, eval_ctx=EvalContext(syms))
+            ctx_obj = EvalContext(syms)
+            _PREV_CTX[:] = [ctx_obj]
+            cfg = Config(root, eval_ctx=ctx_obj)
         rec['status'] = 'ok'
-        rec['values'] = {ev['key']: observe.native(_locate(cfg, build, ev)) for ev in build['evals']}
+        vals = {}
+        for ev in build['evals']:
+            v = _locate(cfg, build, ev)
+            if 'call_after' in ev:
+                try:
+                    v = v(ev['call_after'])    # after the build: the function resolves its free names now
+                except Exception as e:
+                    v = ['raised-when-called', type(e).__name__]
+            vals[ev['key']] = observe.native(v)
+        rec['values'] = vals
     except Exception as e:
         rec['status'] = 'error'
         rec['exc'] = {'type': type(e).__name__, 'chain': observe.cause_chain(e), 'msg': observe.norm_text(e)[-500:],
@@ -515,7 +550,7 @@ def reach_problems(stats, tier):
     probs = []
     for need in ('build_reusing_path_and_code', 'no_file_name', 'node:eval', 'node:fstr', 'node:fstr_implicit', 'program:def', 'program:closure',
                  'program:comprehension', 'program:try', 'program:with', 'program:import', 'program:extended_arg', 'program:for', 'program:while',
-                 'program:lambda', 'program:global_stmt', 'program:error'):
+                 'program:lambda', 'program:global_stmt', 'program:error', 'program:annotations', 'program:callable_value'):
         if not pr.get(need):
             probs.append(f'probe {need} never fired')
     if not stats.get('faults', {}).get('user_code_raises'):
